@@ -25,11 +25,24 @@ ASSUME = ["equality with a stand-alone optimiser run and tie handling are runtim
 def run(prog, rep):
     rep.explanation = EXPL
     rep.assumptions = ASSUME
-    dims(prog, rep)
-    split(prog, rep)
-    c10.align(prog, _Map(rep), "C09.masks")
-    intervals(prog, rep)
-    defaults(prog, rep)
+    rep.part(dims, prog, rep)
+    rep.part(split, prog, rep)
+    rep.part(c10.align, prog, _Map(rep), "C09.masks")
+    rep.part(intervals, prog, rep)
+    rep.part(defaults, prog, rep)
+    # which observations fall in which interval is the slicers' business (C10): the same obligations are filed here too
+    from vstat.report import Relabel
+    sub = Relabel(rep, "C09.membership")
+    for part in (c10.width_slicer, c10.number_slicer, c10.ppi, c10.drop, c10.minimum):
+        rep.part(part, prog, sub)
+    rep.expect_min("C09.membership", 20)
+    # "the dependence functions are fitted to the (reference, estimate) pairs": how a dependence function is fitted and
+    # re-fitted after its conditioners is C14's protocol; filed here too
+    from . import c14
+    dep = Relabel(rep, "C09.dependence")
+    for part in (c14.start_result, c14.protocol):
+        rep.part(part, prog, dep)
+    rep.expect_min("C09.dependence", 8)
     rep.expect_min("C09.dims", 5)
     rep.expect_min("C09.split", 3)
     rep.expect_min("C09.masks", 4)
